@@ -189,14 +189,37 @@ static int choose_schedule(long total_reads, long total_writes)
         return fam;
 }
 
+/* deterministic sweep: 24 fixed scenarios x every single split point of the input (one refusal run of 7 reads at each read attempt) and
+ * every single write refusal position x run length {1,2,5,17} (capped at SWEEP_PER schedule indices per scenario) */
+#define SWEEP_SCEN 24
+#define SWEEP_PER 700
+static int sweep_schedule(long idx, long total_reads, long total_writes)
+{
+        memset(bitsR, 1, sizeof bitsR); memset(bitsW, 1, sizeof bitsW);
+        sch_eager(&RS); sch_eager(&WS);
+        if (idx < total_reads) {
+                for (int i = 0; i < 7 && (size_t)(idx + i) < sizeof bitsR; i++) bitsR[idx + i] = 0;
+                sch_bits(&RS, bitsR, sizeof bitsR); snprintf(sched_desc, sizeof sched_desc, "sweep: input split, 7 refused reads at read attempt %ld", idx);
+                return 2;
+        }
+        idx -= total_reads;
+        static const int L[4] = { 1, 2, 5, 17 };
+        long pos = idx / 4; int len = L[idx % 4];
+        if (pos >= total_writes) return -1;
+        for (int i = 0; i < len && (size_t)(pos + i) < sizeof bitsW; i++) bitsW[pos + i] = 0;
+        sch_bits(&WS, bitsW, sizeof bitsW); snprintf(sched_desc, sizeof sched_desc, "sweep: write refused %d times at write attempt %ld", len, pos);
+        return 1;
+}
 struct case_budget chk_budget(const char *tier)
 {
-        struct case_budget b = { 0, strcmp(tier, "thorough") == 0 ? 500000 : 30000 };
+        struct case_budget b = { (long)SWEEP_SCEN * SWEEP_PER, strcmp(tier, "thorough") == 0 ? 500000 : 30000 };
         return b;
 }
 void chk_run_case(uint64_t seed, long c, bool is_sweep)
 {
-        (void)seed; (void)c; (void)is_sweep;
+        (void)seed;
+        long sweep_idx = -1;
+        if (is_sweep) { sweep_idx = c % SWEEP_PER; pr_seed(&G, 0xC12C12, (uint64_t)(c / SWEEP_PER) + 1000 * (uint64_t)QCAP); }   /* same scenario for all schedule indices of a block */
         eng_default_profile();
         event_mode = chance(40);
         if (chance(20)) EP.max_cmds = 40;
@@ -222,11 +245,13 @@ void chk_run_case(uint64_t seed, long c, bool is_sweep)
         run_once(&base, 0);
         long total_reads = N_READ_OK + N_READ_NO - rd0, total_writes = N_WRITE_OK + N_WRITE_NO - wr0;
         if (!base.quiet) { inconclusive("eager run did not reach quiescence (C15's subject)"); result_free(&base); return; }
-        int nvariants = strcmp(TIER, "thorough") == 0 ? 10 : 5;
+        int nvariants = is_sweep ? 1 : strcmp(TIER, "thorough") == 0 ? 10 : 5;
         long refus = 0; uint64_t fams = 0;
         for (int k = 0; k < nvariants && !case_failed(); k++) {
                 memcpy(INB, in_copy, in_len);
-                int fam = choose_schedule(total_reads, total_writes);
+                int fam = is_sweep ? sweep_schedule(sweep_idx, total_reads, total_writes) : choose_schedule(total_reads, total_writes);
+                if (fam < 0) { CNT("sweep_indices_beyond_the_scenario"); break; }
+                if (is_sweep) CNT("sweep_single_refusal_schedules");
                 run_once(&var, k & 1);
                 CNT("schedule_variants_run");
                 DSET("refusal_patterns", hash_bytes(bitsR, 256, hash_bytes(bitsW, 512, (uint64_t)fam + RS.pct * 7 + WS.pct * 131)));
